@@ -267,13 +267,19 @@ class FutTheory(Theory):
         raise Unsupported(f"method .{name}() on {type(val).__name__}")
 
 
+VERIFIED_METHODS = {  # the bodies that are executed symbolically (everything else of the class is not under contract)
+    "Future": {"__init__", "cancel", "__schedule_callbacks", "cancelled", "done", "result", "exception", "add_done_callback", "set_result", "set_exception", "__await__", "_make_cancelled_error"},
+    "Task": {"__init__", "cancel", "uncancel", "__step", "__step_run_and_handle_result", "__wakeup"},
+}
+
+
 def fut_unit(name, props, theory=None, mod="asyncio.futures", short="futures", cls="Future", trusted=None):
     def deco(fn):
         def wrapped(ip: Interp, th):
             std = StdRepo(stdlib_file(mod), short)
             std.exc.update({"InvalidStateError": "Exception", "StoredException": "BaseException", "CancelledError": "BaseException", "ThrownIn": "BaseException"})
             ip.repo = std
-            ip.extra_functions = {f"{mod}.{cls}.{m}": fi.src_hash for m, fi in std.classes[cls].methods.items()}
+            ip.extra_functions = {f"{mod}.{cls}.{m}": fi.src_hash for m, fi in std.classes[cls].methods.items() if m in VERIFIED_METHODS[cls]}
             ip.extra_functions[mod.replace(".", "/") + ".py"] = std.file_hash
             ip.consts = dict(ip.consts)
             ip.consts.update({"_PENDING": IntV(F_PENDING), "_CANCELLED": IntV(F_CANCELLED), "_FINISHED": IntV(F_FINISHED)})
@@ -687,6 +693,8 @@ class TaskTheory(FutTheory):
             return [(st, IntV(fresh("task_no", I)))]
         if n == "str" and len(pos) == 1:
             return self.ip.to_str(st, fr, pos[0])
+        if n == "events.get_running_loop":
+            return [(st, RefV(self.THE_LOOP))]
         if n == "contextvars.copy_context":
             r = fresh("new_context", Ref)
             st.assume(r != NONE)
@@ -705,6 +713,14 @@ class TaskTheory(FutTheory):
             if name == "call_soon" and z3.eq(val.t, self.THE_LOOP):
                 fn = pos[0]
                 st.trace.append(("call_soon", fn.name if isinstance(fn, FuncV) else fn, [ip.deref(st, a) for a in pos[1:]], kws.get("context")))
+                return [(st, NoneV())]
+            if name == "create_task" and z3.eq(val.t, self.THE_LOOP):
+                t = fresh("created_task", Ref)
+                st.assume(t != NONE)
+                st.trace.append(("loop.create_task", ip.deref(st, pos[0]) if pos else None, dict(kws), t))
+                return [(st, RefV(t))]
+            if name == "set_name":
+                st.trace.append(("set_name", val.t, ip.deref(st, pos[0]) if pos else None))
                 return [(st, NoneV())]
             if name == "is_running" and z3.eq(val.t, self.THE_LOOP):
                 return [(st, BoolV(fresh("loop_running", B)))]
@@ -950,3 +966,22 @@ def u_task(ip: Interp, th: TaskTheory, std: StdRepo):
     for m in ("set_result", "set_exception"):
         body = std.classes["Task"].methods[m].node.body
         ip.require(th.initial(), f"Task.{m}:always-raises-RuntimeError(user-code-cannot-complete-a-task)", z3.BoolVal(len(body) == 1 and isinstance(body[0], ast.Raise) and "RuntimeError" in ast.unparse(body[0])), P)
+
+    # ================= create_task(coro, name=...)  (what the pool calls; C11: the name reaches the task) ===============
+    fi = std.functions["tasks.create_task"]
+    ip.extra_functions["asyncio.tasks.create_task"] = fi.src_hash
+    ip.extra_functions["asyncio.tasks._set_task_name"] = std.functions["tasks._set_task_name"].src_hash
+    for name_given in (False, True):
+        st = th.initial()
+        coro = fresh("given_coro", Ref)
+        nm = StrV(fresh("given_name", sym.S)) if name_given else NoneV()
+        for s, v in ip.exec_function(st, fi, None, {"coro": RefV(coro), "name": nm, "context": NoneV()}):
+            T = f"create_task[name={'given' if name_given else 'None'}]:"
+            ct, sn = _events(s, "loop.create_task"), _events(s, "set_name")
+            ok = len(ct) == 1 and not isinstance(v, Exit) and isinstance(v, RefV) and isinstance(ct[0][1], RefV)
+            ip.require(s, T + "exactly-one-task-is-created-on-the-running-loop-for-exactly-the-given-coroutine-and-returned;nothing-is-run-now",
+                       z3.And(ct[0][1].t == coro, v.t == ct[0][3]) if ok else z3.BoolVal(False), P + ("C11",))
+            if name_given:
+                ip.require(s, T + "the-given-name-is-set-on-exactly-that-task(C11:the-pool's-task-names)", z3.And(sn[0][1] == ct[0][3], sn[0][2].t == nm.t) if ok and len(sn) == 1 and isinstance(sn[0][2], StrV) else z3.BoolVal(False), P + ("C11",))
+            else:
+                ip.require(s, T + "no-name-is-set", z3.BoolVal(not sn), P + ("C11",))
